@@ -28,7 +28,7 @@ func init() {
 			"arrival time stamp of a message = accumulated Driver.Sleep time of the Send call that carried its last byte (C04)",
 			"inter-arrival gaps are kept below 0x07FFFFFF ticks at the recording tempo and resolution (a delta must be representable in the file)",
 		},
-		Require: []string{"old_driver_recordings", "overdubs_into_read_files", "recordings", "channel_messages_recorded", "non_channel_messages_sent", "realtime_sent", "syscommon_sent", "strict_validated", "read_back", "delta_checks", "file_level_recordings", "recordings_with_long_pause", "recordings_with_oversized_sysex", "long_sessions_beyond_2^32_ticks"},
+		Require: []string{"old_driver_recordings", "recordings_with_empty_deliveries", "overdubs_into_read_files", "recordings", "channel_messages_recorded", "non_channel_messages_sent", "realtime_sent", "syscommon_sent", "strict_validated", "read_back", "delta_checks", "file_level_recordings", "recordings_with_long_pause", "recordings_with_oversized_sysex", "long_sessions_beyond_2^32_ticks"},
 		Run:     runC13,
 	})
 }
@@ -73,6 +73,15 @@ func runC13(c *mon.Ctx) {
 			stream = append(r.Bytes7(stray), stream...)
 		}
 		parts := r.Partition(len(stream), r.Pick(1, 3, 8, 1000))
+		if r.P(1, 3) {
+			// deliveries without any data (an empty Send, an empty chunk of a forwarded stream) between the
+			// others: the time that passes before them still passes
+			for k := r.Range(1, 4); k > 0; k-- {
+				at := r.Intn(len(parts) + 1)
+				parts = append(parts[:at], append([]int{0}, parts[at:]...)...)
+			}
+			c.Count("recordings_with_empty_deliveries", 1)
+		}
 		chunks := make([][]byte, len(parts))
 		deltas := make([]int32, len(parts))
 		acc := make([]int64, len(parts))
